@@ -803,11 +803,32 @@ func signatureMatchesRRset(sig *dns.RRSIG, set []dns.RR) bool {
 	}
 	signer := dns.CanonicalName(sig.SignerName)
 	header := set[0].Header()
+	// A denial record is never the product of wildcard expansion (RFC 4035
+	// §2.3, RFC 4592 §4.6). An NSEC or NSEC3 whose RRSIG counts fewer labels
+	// than its owner has is the wildcard's own record renamed: the signature
+	// would verify (the signed data is rebuilt under *.<suffix>), and the
+	// record would then deny, as its "own", types of an existing name and the
+	// names up to its next name.
+	if (sig.TypeCovered == dns.TypeNSEC || sig.TypeCovered == dns.TypeNSEC3) &&
+		wildcardExpanded(header.Name, sig.Labels) {
+		return false
+	}
 	return header.Class == sig.Header().Class &&
 		header.Rrtype == sig.TypeCovered &&
 		dns.CountLabel(header.Name) >= int(sig.Labels) &&
 		strings.EqualFold(header.Name, sig.Header().Name) &&
 		dnsutil.NameInZone(strings.ToLower(dns.Fqdn(header.Name)), signer)
+}
+
+// wildcardExpanded reports whether an RRSIG with this Labels value over owner
+// can only verify as a wildcard expansion: it counts fewer labels than the
+// owner has, the leading "*" of a wildcard owner itself not counted.
+func wildcardExpanded(owner string, sigLabels uint8) bool {
+	labels := dns.CountLabel(owner)
+	if strings.HasPrefix(owner, "*.") {
+		labels--
+	}
+	return int(sigLabels) < labels
 }
 
 func beginSignature(work SignatureWork) (func(), error) {
